@@ -41,6 +41,8 @@ theorem counters_step_by_one (s s' : Sys) (e : Ev) (h : step s e = some s') :
     s'.b.raaSent = s.b.raaSent + (if isSendRaa false e then 1 else 0) :=
   step_event_counts h
 
+example : step (Sys.init 10 10) (.commit true [3] [] []) ≠ none := by decide
+
 /-- In every run: the send counters count the `commit` / `sendRaa` events; every commitment_signed sent
     has been processed or is still held back / on the wire, likewise every revoke_and_ack; hence the chain
     `raaRecv ≤ peer.raaSent ≤ peer.csRecv ≤ csSent` in both directions. -/
@@ -94,11 +96,28 @@ theorem raa_only_after_cs (va vb : Nat) (evs : List Ev) (s : Sys) (h : run (Sys.
 
 example : run (Sys.init 10 10) [.sendRaa true] = none := by decide
 
+/-- Non-vacuity: adds in both directions (crossing commitments), a fulfil and a fail in one batch, a
+    fulfil the other way, interleaved deliveries; the run is a guarded run, ends quiescent, agreed, with
+    the fulfilled amounts moved (300 a→b, 50 b→a; the failed 200 returned). -/
+def goodRun : List Ev := [
+  .commit true [300, 200] [] [], .commit false [50] [] [], .release true, .release false,
+  .recv false, .recv false, .recv false, .recv true, .recv true,
+  .sendRaa false, .sendRaa true, .recv true, .recv false,
+  .commit true [] [] [], .commit false [] [] [], .release false, .release true,
+  .recv true, .recv false, .sendRaa true, .sendRaa false, .recv false, .recv true,
+  .commit false [] [0] [1], .release false, .recv true, .recv true, .recv true, .sendRaa true,
+  .commit true [] [0] [], .release true,
+  .recv false, .recv false, .recv false, .sendRaa false, .recv true,
+  .commit false [] [] [], .release false, .recv true, .sendRaa true, .recv false,
+  .commit true [] [] [], .release true, .recv false, .sendRaa false, .recv true ]
+
 /-! ### the guarded protocol refines the model -/
 
 /-- a guarded run is a run of the model with the same final state (the guards only remove runs) -/
 theorem guarded_refines (s s' : Sys) (evs : List Ev) (h : runG s evs = some s') : run s evs = some s' :=
   run_of_runG evs s s' h
+
+example : (runG (Sys.init 1000 1000) goodRun).isSome = true := by decide
 
 /-! ### 4. balance conservation -/
 
@@ -150,6 +169,10 @@ theorem balance_conservation_partial (va vb : Nat) (evs : List Ev) (s : Sys)
   have e2 : EA s.swap = excess s.b s.a := EA_explicit s.swap inv.base'.ok
   refine ⟨?_, inv.bal.fa, inv.bal.fb, ht⟩
   rw [← e1, ← e2]; exact inv.bal.cons
+
+-- in the middle of `goodRun`: b has credited the fulfilled 300, a has not yet debited them
+example : (runG (Sys.init 1000 1000) (goodRun.take 32)).map (fun s =>
+    (s.a.valueToSelf, s.b.valueToSelf, excess s.a s.b, excess s.b s.a)) = some (1000, 1300, 300, 0) := by decide
 
 /-- Quiescent form: with no HTLC pending anywhere the two balances partition the channel value. -/
 theorem balance_quiescent_partial (va vb : Nat) (evs : List Ev) (s : Sys)
@@ -204,21 +227,7 @@ theorem agreement_fails_overdraw :
     (run (Sys.init 0 10) cexOverdraw).map (·.agreed) = some false ∧ runG (Sys.init 0 10) cexOverdraw = none := by
   decide
 
-/-- Non-vacuity: adds in both directions (crossing commitments), a fulfil and a fail in one batch, a
-    fulfil the other way, interleaved deliveries; the run is a guarded run, ends quiescent, agreed, with
-    the fulfilled amounts moved (300 a→b, 50 b→a; the failed 200 returned). -/
-def goodRun : List Ev := [
-  .commit true [300, 200] [] [], .commit false [50] [] [], .release true, .release false,
-  .recv false, .recv false, .recv false, .recv true, .recv true,
-  .sendRaa false, .sendRaa true, .recv true, .recv false,
-  .commit true [] [] [], .commit false [] [] [], .release false, .release true,
-  .recv true, .recv false, .sendRaa true, .sendRaa false, .recv false, .recv true,
-  .commit false [] [0] [1], .release false, .recv true, .recv true, .recv true, .sendRaa true,
-  .commit true [] [0] [], .release true,
-  .recv false, .recv false, .recv false, .sendRaa false, .recv true,
-  .commit false [] [] [], .release false, .recv true, .sendRaa true, .recv false,
-  .commit true [] [] [], .release true, .recv false, .sendRaa false, .recv true ]
-
+-- the run `goodRun` (defined above) is a guarded run, ends quiescent and agreed, with the fulfilled amounts moved
 example : (runG (Sys.init 1000 1000) goodRun).map (fun s =>
     s.agreed && s.qab.isEmpty && s.qba.isEmpty && s.pendA.isEmpty && s.pendB.isEmpty &&
     s.a.inb.isEmpty && s.a.outb.isEmpty && s.b.inb.isEmpty && s.b.outb.isEmpty &&
